@@ -308,8 +308,78 @@ func setField(f *Fact, k reflect.Kind, r *big.Rat) bool {
 	return true
 }
 
+// runC19Other pushes string and time pairs through GRL conditions.
+func runC19Other(c *Ctx, idx int, cr *CaseResult) *CaseResult {
+	r := c.Rng(idx, 0)
+	st := GenState(c.Rng(idx, 1))
+	f, g := st["F"].(*Fact), st["G"].(*Fact)
+	var cv int
+	left, right := "F.S1", "G.S1"
+	desc := ""
+	if r.Intn(2) == 0 {
+		strs := []string{"", "a", "ab", "b", "A", "é", "z", "a\x00", "aa", "Z", " a", "ab\xff"}
+		f.S1, g.S1 = strs[r.Intn(len(strs))], strs[r.Intn(len(strs))]
+		cv = strings.Compare(f.S1, g.S1)
+		desc = fmt.Sprintf("string %q vs %q", f.S1, g.S1)
+	} else {
+		base := time.Date(2020, 6, 15, 12, 0, 0, 500, time.UTC)
+		now := time.Now()
+		ts := []time.Time{base, base.In(time.FixedZone("plus1", 3600)), base.In(time.FixedZone("minus930", -9*3600-1800)), base.In(time.Local),
+			base.Add(1), base.Add(-1), {}, now, now.Round(0), now.Round(0).In(time.FixedZone("plus1", 3600)), time.Unix(0, 0)}
+		f.Tm, g.Tm2 = ts[r.Intn(len(ts))], ts[r.Intn(len(ts))]
+		left, right = "F.Tm", "G.Tm2"
+		switch {
+		case f.Tm.Before(g.Tm2):
+			cv = -1
+		case f.Tm.After(g.Tm2):
+			cv = 1
+		}
+		desc = fmt.Sprintf("time %s vs %s", f.Tm, g.Tm2)
+	}
+	ops := []string{"<", "==", ">", "<=", ">=", "!="}
+	want := map[string]bool{"<": cv < 0, "==": cv == 0, ">": cv > 0, "<=": cv <= 0, ">=": cv >= 0, "!=": cv != 0}
+	var text strings.Builder
+	for i, op := range ops {
+		fmt.Fprintf(&text, "rule Op%d \"%s\" { when %s %s %s then F.B = 1; }\n", i, op, left, op, right)
+	}
+	lib, err := BuildLib(text.String())
+	if err != nil {
+		cr.inconclusive("rule text rejected by the builder (judged by C17)")
+		return cr
+	}
+	kbi, err := NewInstance(lib)
+	if err != nil {
+		cr.inconclusive("instance creation failed (judged by C09)")
+		return cr
+	}
+	res := Run(kbi, nil, st, RunCfg{Fetch: true, NoSnap: true})
+	cr.Evals++
+	if res.Err != nil || res.Panic != nil {
+		cr.violate(fmt.Sprintf("comparison through GRL fails (%s): %v %v", desc, res.Err, res.Panic), map[string]interface{}{"grl": text.String()})
+		return cr
+	}
+	got := map[string]bool{}
+	for _, n := range res.Matched {
+		var i int
+		fmt.Sscanf(n, "Op%d", &i)
+		got[ops[i]] = true
+	}
+	for _, op := range ops {
+		if got[op] != want[op] {
+			cr.violate(fmt.Sprintf("GRL: %s %s %s (%s) is %v, the values say %v", left, op, right, desc, got[op], want[op]), map[string]interface{}{"grl": text.String()})
+			return cr
+		}
+	}
+	cr.NonTrivial = append(cr.NonTrivial, desc)
+	cr.set("grl_kind_pairs", left+","+right)
+	return cr
+}
+
 func runC19Case(c *Ctx, idx int) *CaseResult {
 	cr := &CaseResult{}
+	if idx%8 == 7 {
+		return runC19Other(c, idx, cr)
+	}
 	r := c.Rng(idx, 0)
 	dom := numDomain()
 	ka, kb := numKinds[r.Intn(len(numKinds))], numKinds[r.Intn(len(numKinds))]
@@ -384,7 +454,7 @@ func runC19Case(c *Ctx, idx int) *CaseResult {
 func init() {
 	register(&Check{
 		ID: "C19", Level: "exploration",
-		Rule: "direct part, exhaustive over a finite domain: every ordered pair of the 12 numeric kinds x {plain, behind pointer, in interface} x 36 boundary values (0, +-1, +-0.5, +-1.25, every width limit <= MaxInt64, 2^24, 2^24+1, 0.1 as float64 and as float32, 2^53-1, 2^53, 2^53+1, MaxInt64, MinInt64) that are exactly representable in both kinds (float pairs: exactly representable as float64), strings (empty, prefixes, case, non-ASCII, NUL, invalid UTF-8), booleans (== and != only), times (same instant in 4 locations, +-1ns, zero, with/without monotonic reading), each with all 6 operators, the mirrored call and the exact mathematical order as value-determinism oracle; GRL part: seeded sample of numeric kind/value pairs through conditions over typed fact fields (also via *int64 and interface{} fields); non-trivial = pairs of different kinds / wrappings / locations",
+		Rule: "direct part, exhaustive over a finite domain: every ordered pair of the 12 numeric kinds x {plain, behind pointer, in interface} x 36 boundary values (0, +-1, +-0.5, +-1.25, every width limit <= MaxInt64, 2^24, 2^24+1, 0.1 as float64 and as float32, 2^53-1, 2^53, 2^53+1, MaxInt64, MinInt64) that are exactly representable in both kinds (float pairs: exactly representable as float64), strings (empty, prefixes, case, non-ASCII, NUL, invalid UTF-8), booleans (== and != only), times (same instant in 4 locations, +-1ns, zero, with/without monotonic reading), each with all 6 operators, the mirrored call and the exact mathematical order as value-determinism oracle; GRL part: seeded sample of numeric kind/value pairs through conditions over typed fact fields (also via *int64 and interface{} fields), plus string and time pairs (every eighth case); non-trivial = pairs of different kinds / wrappings / locations",
 		Assume: []string{"NaN excluded", "unsigned values beyond MaxInt64 excluded (the property bounds the domain to the int64 range)"},
 		Cases:  tierN(4000, 100000),
 		Run:    runC19Case,
